@@ -156,7 +156,7 @@ def scenario(draw) -> Dict[str, Any]:
         joins[hb] = 'start'
         browsers = browsers[:3] + [{'host': hb, 'types': [services[k]['type']], 'at': t2 + draw(st.integers(1200, 9000)), 'qtype': None}]
         ops = [o for o in ops if not (o['op'] == 'cancel_browser' and o['browser'] >= len(browsers) - 1)]
-    return {'shared': shared, 'host_addrs': host_addrs,'seed': draw(st.integers(0, 10**6)), 'hosts': n_hosts, 'joins': joins, 'max_delay': draw(st.sampled_from([0, 20, 100, 100])),
+    case = {'shared': shared, 'host_addrs': host_addrs,'seed': draw(st.integers(0, 10**6)), 'hosts': n_hosts, 'joins': joins, 'max_delay': draw(st.sampled_from([0, 20, 100, 100])),
             'dup_pct': draw(st.sampled_from([0, 0, 20])), 'jitter': draw(st.sampled_from(['seed', 'seed', 'seed', 'ends'])),
             'services': services, 'browsers': browsers, 'ops': ops,
             # a third of the scenarios are looked at a second time 80 or 160 minutes after the settling point (past one or two
@@ -168,6 +168,15 @@ def scenario(draw) -> Dict[str, Any]:
                                                          'at_s': draw(st.sampled_from([600, 2300, 2400, 3000, 3500]))}])),
             'drops': [[draw(st.integers(0, 999)), draw(st.sampled_from(['all', 'one'])), draw(st.sampled_from(['any', 'critical', 'critical', 'goodbye', 'goodbye-last']))]
                       for _ in range(3)]}
+    lb = case['late_browser']
+    if lb is not None and case['late_s'] and draw(st.integers(0, 2)) == 0:
+        # ... or exactly when a pointer that nobody refreshed (no other browser of that type anywhere on the link) has just run out
+        # in that host's cache and waits for the ten-second purge
+        ti = draw(st.sampled_from(sorted({sv['type'] for sv in services})))
+        for b in case['browsers']:
+            b['types'] = sorted({t if t != ti else (ti + 1) % 3 for t in b['types']})
+        lb['types'], lb['at_s'] = [ti], 'expiry'
+    return case
 
 
 def strategy(tier: str):
@@ -396,9 +405,30 @@ class Run:
         if case.get('late_s'):
             lb = case.get('late_browser')
             slept = 0.0
+            self.late_in_purge_window = False
             if lb and lb['host'] not in self.host_closed_at and hosts[lb['host']] is not None:
-                await asyncio.sleep(lb['at_s'])
-                slept = lb['at_s']
+                if lb['at_s'] == 'expiry':
+                    lzc = hosts[lb['host']].zc
+
+                    def ptrs() -> List[Any]:
+                        return [r for ti in lb['types'] for r in lzc.cache.entries_with_name(TYPES[ti]) if r.type == 12]
+
+                    for _ in range(4):
+                        now = w.now_ms
+                        exps = [r.created + r.ttl * 1000.0 for r in ptrs() if not r.is_expired(now)]
+                        if not exps:
+                            break
+                        dt = (min(exps) - now) / 1000.0 + 0.05
+                        if slept + dt > case['late_s'] - 200:
+                            break
+                        await asyncio.sleep(dt)
+                        slept += dt
+                        if any(r.is_expired(w.now_ms) for r in ptrs()):
+                            self.late_in_purge_window = True
+                            break
+                else:
+                    await asyncio.sleep(lb['at_s'])
+                    slept = lb['at_s']
                 self.late_listener = sim.RecListener(w, tag=f"H{lb['host']}", on_add=on_add)
                 types = [TYPES[i] for i in lb['types']]
                 AsyncServiceBrowser(hosts[lb['host']].zc, types if len(types) > 1 else types[0], listener=self.late_listener)
@@ -542,6 +572,7 @@ def judge(case: Dict[str, Any], run: Run, label: str) -> None:
             if got != want:
                 raise Violation('a browser started long after the link had settled does not report the registered instances of its type',
                                 dict(det, host=lb['host'], type=t, started_s=lb['at_s'], reported=sorted(got), registered=sorted(want),
+                                     expired_unpurged_pointer_at_start=getattr(run, 'late_in_purge_window', False),
                                      callbacks=[(x['kind'], x['name'], rel(x['t'])) for x in run.late_browser_events if x['type'] == t][-8:]),
                                 tag='late-browser:' + ('missing' if want - got else 'stale'))
     # lookups from inside Added callbacks
@@ -677,6 +708,9 @@ def check(case: Dict[str, Any]) -> Dict[str, Any]:
     if case.get('late_s'):
         classes.append('second-look-after-%d-s' % case['late_s'])
         if case.get('late_browser'):
-            classes.append('browser-started-%d-s-after-settling' % case['late_browser']['at_s'])
+            if case['late_browser']['at_s'] == 'expiry':
+                classes.append('browser-started-when-an-unrefreshed-pointer-ran-out' + ('-before-the-purge' if getattr(base, 'late_in_purge_window', False) else '-(not reached)'))
+            else:
+                classes.append('browser-started-%d-s-after-settling' % case['late_browser']['at_s'])
     return {'nontrivial': used_drop or base.in_flight_browser_start, 'classes': classes, 'evaluations': runs,
             'max': {'datagrams': n, 'runs': runs, 'lookups': len(base.lookups)}, 'sample': {'case': case, 'datagrams': n, 'runs': runs}}
